@@ -231,6 +231,13 @@ class AModel(Model):
             st.emit('LIST', (self.hdf_path(itval),), getattr(node, 'lineno', 0), extra={'via': 'hdf iteration'})
         return None
 
+    def with_exit(self, val, st, node):
+        # leaving `with open(p, mode) as f:` closes (and flushes) the file
+        for t in subterms(val):
+            if t[0] == 'fh':
+                st.emit('FCLOSE', (t[1], C(t[2])), getattr(node, 'lineno', 0))
+                return
+
     # ---------------------------------------------------------------- value classes
     def is_hdf(self, v):
         if v[0] == 'phi':
